@@ -10,7 +10,7 @@ import os
 import random
 from fractions import Fraction
 
-from .common import case, guarded
+from .common import case, guarded, snapshot, snap_diff
 
 ID = "C05"
 RULE = ("matrices: exhaustive 0/1 matrices (quick <= 3x4 and 4x3, thorough <= 3x5 and 4x4; degenerate 0-row / 0-column "
@@ -669,8 +669,14 @@ def generate(tier, seed):
 
 # ---------------------------------------------------------------------------------------------------------
 # implementation side
-def _instance(alts, ballots, ncat):
+def _instance(alts, ballots, ncat, npids=False, multrev=False, recompute=False):
+    """npids: identifiers are numpy.int64; multrev: the keys of multiplicity are inserted in the reverse of the order
+    of preferences; recompute: recompute_cardinality_param() is called once the instance is built"""
     from preflibtools.instances import CategoricalInstance
+    if npids:
+        import numpy as np
+        alts = [np.int64(a) for a in alts]
+        ballots = [[np.int64(a) for a in b] for b in ballots]
     inst = CategoricalInstance()
     for a in alts:
         inst.alternatives_name[a] = "Alternative " + str(a)
@@ -684,9 +690,13 @@ def _instance(alts, ballots, ncat):
             pref = (tuple(b), tuple(a for a in alts if a not in b))
         inst.preferences.append(pref)
         inst.multiplicity[pref] = inst.multiplicity.get(pref, 0) + 1
+    if multrev:
+        inst.multiplicity = {k_: inst.multiplicity[k_] for k_ in reversed(list(inst.multiplicity))}
     inst.num_voters = len(ballots)
     inst.num_unique_preferences = len(set(inst.preferences))
     inst.data_type = "cat"
+    if recompute:
+        inst.recompute_cardinality_param()
     return inst
 
 
@@ -704,9 +714,24 @@ def _run_matrix(nc, rows):
     from preflibtools.properties.subdomains.consecutive_ones import solve_consecutive_ones, isC1P
     nr = len(rows)
     mat = np.array(rows, dtype=int).reshape(nr, nc)
+    keep = mat.copy()
     res = solve_consecutive_ones(mat)
     if not (isinstance(res, tuple) and len(res) == 2):
         raise AssertionError("solve_consecutive_ones returned %r" % (res,))
+    if not np.array_equal(mat, keep):
+        raise AssertionError("solve_consecutive_ones modified the matrix of its caller")
+    # the returned order belongs to the caller: spoil it and ask again (same question, same answer expected)
+    first = (bool(res[0]), None if res[1] is None else [int(j) if _is_int(j) else -1 for j in res[1]])
+    if isinstance(res[1], list):
+        res[1].reverse()
+        res[1].append(-7)
+        del res[1][:1]
+    res2 = solve_consecutive_ones(mat)
+    second = (bool(res2[0]), None if res2[1] is None else [int(j) if _is_int(j) else -1 for j in res2[1]])
+    if first != second:
+        raise AssertionError("solve_consecutive_ones answered %r, then %r on the same matrix after the first returned "
+                             "order had been modified by the caller" % (first, second))
+    res = (res2[0], res2[1])
     v, order = res
     if v:
         if order is None or not all(_is_int(j) for j in order):
@@ -716,8 +741,15 @@ def _run_matrix(nc, rows):
         order = []
     iv_list = iv_np = -1
     if nr >= 1 and nc >= 1:
-        iv_list = int(bool(isC1P([list(r) for r in rows])))
+        arg = [list(r) for r in rows]
+        iv_list = int(bool(isC1P(arg)))
+        if arg != [list(r) for r in rows]:
+            raise AssertionError("isC1P modified the matrix (list of lists) of its caller")
+        if int(bool(isC1P(arg))) != iv_list:
+            raise AssertionError("isC1P gave two different answers on the same matrix")
         iv_np = int(bool(isC1P(mat)))
+        if not np.array_equal(mat, keep):
+            raise AssertionError("isC1P modified the matrix (ndarray) of its caller")
     return [int(bool(v)), order, iv_list, iv_np]
 
 
@@ -799,11 +831,26 @@ def _run_reorder(fam, form):
     try:
         res = reorder_sets(arg)
     except ValueError:
+        if list(arg) != sets:
+            raise AssertionError("reorder_sets modified the family of its caller")
         return [0, [], elems]
+    if list(arg) != sets:
+        raise AssertionError("reorder_sets modified the family of its caller")
     try:
-        return [1, [[int(x) for x in s_] for s_ in res], elems]
+        out = [[int(x) for x in s_] for s_ in res]
     except Exception:
         return [1, [[-1]], elems]
+    # the result belongs to the caller: spoil it (unless it IS the argument: families of <= 2 sets are returned as
+    # they are), then the same question must get the same answer
+    if isinstance(res, list) and res is not arg:
+        res.reverse()
+        res.append((-7,))
+        arg2 = list(sets) if form == 0 else dict.fromkeys(sets).keys()
+        res2 = reorder_sets(arg2)
+        if [[int(x) for x in s_] for s_ in res2] != out:
+            raise AssertionError("reorder_sets gave two different answers on the same family after the first result had "
+                                 "been modified by the caller")
+    return [1, out, elems]
 
 
 def impl(c):
